@@ -234,6 +234,14 @@ def worker(block):
                                     res.stats["transitions"] += 1
                                     if msg:
                                         msg = "renderer object reused after the machine moved: " + msg
+                                if not msg:
+                                    # an instance that *starts* in this state (start_value): the
+                                    # initial pseudo-edge still shows the machine's initial state
+                                    sv = cls(start_value=getattr(cls, SID[cur]).value)
+                                    msg = check_graph(sv._graph(), exp, SID[cur])
+                                    res.stats["transitions"] += 1
+                                    if msg:
+                                        msg = "instance created with start_value: " + msg
                                 res.stats["transitions"] += 1
                                 res.hist["instance" + ("-falsy-value" if not sm.current_state_value
                                                        else "")] += 1
@@ -297,7 +305,9 @@ def replay(sc):
         sm.current_state_value = getattr(cls, IDSETS[ids][cur]).value
         msg = check_graph(sm._graph(), exp, IDSETS[ids][cur]) or \
             check_graph(DotGraphMachine(sm)(), exp, IDSETS[ids][cur]) or \
-            check_graph(kept(), exp, IDSETS[ids][cur])
+            check_graph(kept(), exp, IDSETS[ids][cur]) or \
+            check_graph(cls(start_value=getattr(cls, IDSETS[ids][cur]).value)._graph(), exp,
+                        IDSETS[ids][cur])
         if msg or cur == sc["current"]:
             return msg
     return None
